@@ -1,5 +1,6 @@
 """C13 — compilation is deterministic and the same through every entry point (K9: fresh processes)."""
 import base64
+import sys
 import json
 import os
 import shutil
@@ -74,6 +75,8 @@ def check_program(idx, src, tmp, seeds, helpers=None):
         runs[("path", hs)] = cli([path], d, dict(extra, PYTHONHASHSEED=hs))
     runs[("b64", seeds[0])] = cli(["-s", b64], d, dict(extra, PYTHONHASHSEED=seeds[0]))
     runs[("b64", seeds[-1])] = cli(["-s", b64], d, dict(extra, PYTHONHASHSEED=seeds[-1]))
+    # the same text as `base64` / MIME tools print it: lines of 76 characters
+    runs[("b64 in 76-character lines", seeds[0])] = cli(["-s", base64.encodebytes(src.encode()).decode()], d, dict(extra, PYTHONHASHSEED=seeds[0]))
     runs[("path+timer", seeds[0])] = cli([path], d, dict(extra, PYTHONHASHSEED=seeds[0], NADA_TIMER="1"))
     runs[("b64+timer", seeds[0])] = cli(["-s", b64], d, dict(extra, PYTHONHASHSEED=seeds[0], NADA_TIMER="1"))
     parsed = {}
@@ -89,7 +92,7 @@ def check_program(idx, src, tmp, seeds, helpers=None):
     if runs[("b64", seeds[0])][1] != runs[("b64", seeds[-1])][1]:
         viol.append(("hash-seed", "base64 entry point: stdout differs between hash seeds"))
     p0 = parsed.get(("path", seeds[0]))
-    for k in (("b64", seeds[0]), ("path+timer", seeds[0]), ("b64+timer", seeds[0])):
+    for k in (("b64", seeds[0]), ("b64 in 76-character lines", seeds[0]), ("path+timer", seeds[0]), ("b64+timer", seeds[0])):
         pk = parsed.get(k)
         if p0 is None or pk is None:
             continue
@@ -221,6 +224,37 @@ REASONS_MUST_AGREE = {"raises", "raises without a message", "bare assert", "bran
 # file names the property quantifies over: coinciding with imported / standard-library / package modules, dots, dashes
 FILE_NAMES = ["json.py", "nada_dsl.py", "os.py", "base64.py", "typing.py", "timer.py", "compile.py", "temp_program.py", "my.prog.py",
               "my-prog.py", "a b.py", "sys.py", "importlib.py", "traceback.py", "dataclasses.py", "1prog.py", "__main__.py", "prog.v2.final.py"]
+
+
+def imported_stdlib_names():
+    """file names coinciding with the standard-library modules that nada_dsl's own modules import (wherever the import
+    statement stands: a deferred import is resolved while the program's directory is first on sys.path)"""
+    import ast
+    names = set()
+    root = os.path.join(core.REPO, "nada_dsl")
+    for dirpath, _, files in os.walk(root):
+        for fn in files:
+            if not fn.endswith(".py"):
+                continue
+            try:
+                with open(os.path.join(dirpath, fn), encoding="utf-8") as f:
+                    tree = ast.parse(f.read())
+            except (SyntaxError, OSError):
+                continue
+            for node in ast.walk(tree):
+                if isinstance(node, ast.Import):
+                    names.update(a.name.split(".")[0] for a in node.names)
+                elif isinstance(node, ast.ImportFrom) and node.level == 0 and node.module:
+                    names.add(node.module.split(".")[0])
+    std = set(getattr(sys, "stdlib_module_names", ()))
+    return sorted(n + ".py" for n in names if n in std and n not in ("sys", "builtins", "__future__"))
+
+
+# a program that reaches literals (folded and written), functions, arrays and tuples: whatever the DSL imports late is imported
+LITERAL_PROG = ("from nada_dsl import *\n\n\ndef nada_main():\n    p = Party(name=\"P\")\n    a = SecretInteger(Input(name=\"a\", party=p))\n\n"
+                "    @nada_fn\n    def f(x: SecretInteger) -> SecretInteger:\n        return x * Integer(3) + Integer(2) * Integer(5)\n\n"
+                "    arr = Array(SecretInteger(Input(name=\"arr\", party=p)), size=3)\n    t = Tuple.new(a, f(a))\n"
+                "    return [Output(arr.map(f), \"m\", p), Output(a + Integer(7), \"o\", p), Output(t, \"t\", p)]\n")
 # the same program with imports of standard-library modules whose names the file may coincide with
 IMPORTING = "import json\nimport os\nimport typing\n"
 
@@ -315,7 +349,8 @@ def run(res, tier):
             res.violation({"property": "C13", "kind": kind, "text": text, "source": DATACLASS_PROG}, f"program defining a dataclass: {kind}: {text}"[:400])
         # file names: two programs (one of them importing standard-library modules) under every listed name
         name_evals = 0
-        for src in [s for s in progs[:2]] + [IMPORTING + s for s in progs[:1]] + [DATACLASS_PROG]:
+        derived = imported_stdlib_names()
+        for src in [s for s in progs[:2]] + [IMPORTING + s for s in progs[:1]] + [DATACLASS_PROG, LITERAL_PROG]:
             d = os.path.join(tmp, f"ref{name_evals}")
             os.makedirs(d, exist_ok=True)
             path = os.path.join(d, "neutral_reference_name.py")
@@ -325,8 +360,10 @@ def run(res, tier):
             if err:
                 continue
             names = FILE_NAMES if tier != "quick" else FILE_NAMES[:10]
+            if src == LITERAL_PROG or tier != "quick":
+                names = names + [n for n in derived if n not in names]
             with ThreadPoolExecutor(max_workers=8) as ex:
-                chunks = [names[i::4] for i in range(4)]
+                chunks = [names[i::8] for i in range(8)]
                 for viol in ex.map(lambda ch: check_names(src, tmp, ch, ref), chunks):
                     for kind, text in viol:
                         res.violation({"property": "C13", "kind": kind, "text": text, "source": src}, f"{kind}: {text}"[:400])
